@@ -76,7 +76,7 @@ func endsInFailure(stmts []ast.Stmt) bool {
 }
 
 func checkC10(c *Ctx) {
-	c.explainf("C10 decides the shape of the two converters' case tables: in the record->Go converters and the Go->record converters the arm for a value kind that has no conversion ends in an error or a panic (inside the builtin barrier) instead of printing and succeeding; for every field type of the registered demo structs the Go->record direction has an arm (the gaps are recorded findings); every recursive conversion call passes on the same dedup cache, which is read before converting a record and written on success; an unknown record field ends in a panic that reaches the script as an error; the converters are reachable only behind the recover barrier. It does not decide equality of values after a trip or shared-object identity.")
+	c.explainf("C10 decides the shape of the two converters' case tables: in the record->Go converters and the Go->record converters the arm for a value kind that has no conversion ends in an error or a panic (inside the builtin barrier) instead of printing and succeeding; for every field type of the registered demo structs the Go->record direction has an arm (the gaps are recorded findings); every recursive conversion call passes on the same dedup cache, which is read before converting a record and written on success; an unknown record field ends in a panic that reaches the script as an error; the converters are reachable only behind the recover barrier. Numbers are stored into Go fields only after a width, range or exactness test (C10-RANGE) and fields are reached through their embed path in both directions (C10-EMBED). It does not decide equality of values after a trip or shared-object identity.")
 
 	// ---- C10-EXH
 	type conv struct {
